@@ -316,6 +316,21 @@ pub fn run_eval(o: &Opts) -> Report {
         let comp = f.composition((g0, g1));
         let (cv, cd) = f.fdf(g0);
         if comp.0.to_bits() != cv.to_bits() || !close(comp.1, cd * g1, 1e-12, 1e-300) { rep.finding("oracle", &["C05"], "composition-not-chain-rule", input.clone(), format!("{:?} vs ({:e},{:e})", comp, cv, cd * g1)); }
+        // a hand-written implementor that provides only `f` and `df`: the trait DEFAULTS supply fdf / composition
+        struct Hand { a: f64, b: f64 }
+        impl Differentiable1D for Hand {
+            fn f(&self, x: f64) -> f64 { (self.a * x).sin() + self.b * x * x }
+            fn df(&self, x: f64) -> f64 { self.a * (self.a * x).cos() + 2.0 * self.b * x }
+        }
+        let h = Hand { a, b };
+        let hd: &dyn Differentiable1D = &h;
+        let hf = hd.fdf(x);
+        if hf.0.to_bits() != hd.f(x).to_bits() || hf.1.to_bits() != hd.df(x).to_bits() { rep.finding("oracle", &["C05"], "default-fdf-not-f-df", input.clone(), String::new()); }
+        let hc = hd.composition((g0, g1));
+        if hc.0.to_bits() != hd.f(g0).to_bits() || hc.1.to_bits() != (hd.df(g0) * g1).to_bits() { rep.finding("oracle", &["C05"], "default-composition-not-chain-rule", input.clone(), format!("{:?} vs ({:e},{:e})", hc, hd.f(g0), hd.df(g0) * g1)); }
+        reqs.push(format!("d1def {} {} {} {} {}", hx(a), hx(b), hx(x), hx(g0), hx(g1)));
+        impls.push(format!("{} {} {} {}", hx(hf.0), hx(hf.1), hx(hc.0), hx(hc.1)));
+        labels.push(format!("trait defaults of Differentiable1D on Hand{{a={a:e},b={b:e}}} at x={x:e}, composition({g0:e},{g1:e})"));
         // jacobian of (x,y) -> (x*y + a*x, sin(y) + b*x*x)
         let y = r.uniform(-2.0, 2.0);
         let jd = abs_jacobian_det(|p: [AD; 2]| [p[0] * p[1] + p[0] * AD(a, 0.0), p[1].sin() + p[0] * p[0] * AD(b, 0.0)], [x, y]);
